@@ -619,6 +619,7 @@ class Report:
         self.notes = []
         self.exhaustive = False
         self.tlc_cmds = []
+        self.stopped = None     # the driver was stopped by its watchdog: without a violation the run is inconclusive
 
     def add_tlc(self, res):
         self.states += res.distinct
@@ -640,6 +641,8 @@ class Report:
         return path
 
     def finish(self, rc=None):
+        if self.stopped and not self.violations and rc is None:
+            raise Inconclusive("the driver stopped early (%s) and what it recorded up to then shows no violation" % self.stopped)
         os.makedirs(EVID, exist_ok=True)
         ev = {
             "property_id": self.pid, "tier": self.tier, "seed": self.seed,
